@@ -173,6 +173,29 @@ def one_case(rec, rng, case_id):
                   "by the second one (%s, %s)" % (via, how), case2)
         judge(rec, mk, full2, x1, via + " (second call, %s)" % how, out2,
               case2)
+    if via_params and rng.random() < .2:
+        # a parameter tied to another one by a constraint expression, the
+        # independent parameter changed afterwards: the model has to use the
+        # values lmfit reports (valuesdict), outside of any fit
+        p3 = gen.nanite_params(mk, full)
+        full3 = dict(full)
+        if mk == "power_layer_clifford_2009" and rng.random() < .5:
+            p3["nu_L"].set(expr="nu_S")
+            full3["nu_S"] = float(rng.uniform(0, .5))
+            p3["nu_S"].value = full3["nu_S"]
+            full3["nu_L"] = full3["nu_S"]
+        else:
+            p3["baseline"].set(expr="contact_point*0.001")
+            full3["contact_point"] = float(full["contact_point"]
+                                           + rng.uniform(-1, 1) * 1e-7)
+            p3["contact_point"].value = full3["contact_point"]
+            full3["baseline"] = full3["contact_point"] * 0.001
+        x3 = x.copy()
+        out3 = md.model(p3, x3)
+        case3 = dict(case, params=full3, x=x3, tied_parameter=True)
+        rec.event("evaluations with an expression-constrained parameter")
+        rec.evaluated(dg=(mk, full3, x3, "tied"))
+        judge(rec, mk, full3, x3, via + " (tied parameter)", out3, case3)
     rec.sample({"model": mk, "params": full, "n": int(x.size), "via": via,
                 "max_depth": float(full["contact_point"] - x.min())})
 
